@@ -806,7 +806,7 @@ def rebuild_rule(ctx, rep, cls, field, rule, what):
                 if not (isinstance(t, tuple) and t[0] == "attr" and t[2] == field and it.type_of(t[1], p) in (None, "C:" + cls.key)):
                     continue
                 v = q.deref(p, s_.d["value"]) if isinstance(s_.d["value"], tuple) else s_.d["value"]
-                if not (isinstance(v, tuple) and v and v[0] in ("comp", "list", "listof", "unpack", "call")):
+                if not (isinstance(v, tuple) and v and v[0] in ("comp", "list", "listof", "unpack", "call", "extnew")):
                     continue
                 walks = [e for e in p.evs("loop") if e.d[0] == "enter" and e.seq < s_.seq and e.d[1] is not None and container_of(e.d[1]) == t and not is_snapshot(e.d[1])]
                 if not walks:
@@ -820,6 +820,22 @@ def rebuild_rule(ctx, rep, cls, field, rule, what):
                 seen.add((key, s_.node))
                 rep.ob(rule, key, ok, "the list is walked and the result stored back without one continuous hold of the lock: an entry appended by another thread in between is dropped", where_of_(m, s_), None)
     if n:
+        # a list that gets *replaced* must be looked up afresh inside the critical section that mutates it: a
+        # reference read before the lock was taken may be the list that has just been replaced, and what is
+        # popped from / appended to that one is lost to everybody else
+        MUTS = ("append", "add", "insert", "extend", "appendleft", "pop", "popleft", "remove", "discard", "clear")
+        for m in fns:
+            ps, it = ctx.paths(m, cls if m.owner is not None else None, depth=2, inline=lambda callee, ev, path: callee.key in own and callee.name != "__init__", loads=(field,))
+            for p in ps:
+                for e in p.calls():
+                    r = q.recv(e)
+                    if q.call_name(e) in MUTS and isinstance(r, tuple) and r[0] == "attr" and r[2] == field and it.type_of(r[1], p) in (None, "C:" + cls.key):
+                        lds = [l for l in p.evs("load") if l.seq < e.seq and l.d["target"] == r]
+                        lk = [l[1] for l in e.locks if isinstance(l[1], tuple) and l[1][0] == "attr" and l[1][1] == r[1] and l[1][2] in locks]
+                        if not lds or not lk:
+                            continue
+                        fresh = any(held_throughout(p, k, lds[-1], e) for k in lk)
+                        rep.ob(rule, "%s: %s is read inside the critical section that mutates it" % (e.fn.qualname, what), fresh, "%s() is applied to a reference to the list that was read before the lock was taken: if another thread replaced the list in between, the change goes to the old list and is lost (an entry popped from it was already taken out -- or cancelled -- by the other thread)" % q.call_name(e), where_of_(e.fn, e), None)
         # ... which only helps if the other side -- whoever inserts into the list -- takes the same lock
         for (fn, _ln), (held, e) in sorted(inserts.items()):
             rep.ob(rule, "%s: insertion into %s under the lock that guards its rebuild" % (fn, what), held, "%s() on the list without its lock: the insertion can land between the walk and the store of a concurrent rebuild, and the new entry is dropped" % q.call_name(e), where_of_(e.fn, e), None)
